@@ -37,7 +37,8 @@ Section Rebuild.
     r_targets r <> [] /\ hostpath (h ++ r_path r) = (h, r_path r) /\ h ++ r_path r <> []
     /\ glob_ok (r_path r) = true /\ Forall tg_good (r_targets r) /\ twin_free (r_targets r).
   Definition host_good (hr : str * list route) : Prop :=
-    lower (fst hr) = fst hr /\ snd hr <> [] /\ NoDup (map r_path (snd hr)) /\ Forall (route_good (fst hr)) (snd hr).
+    lower (fst hr) = fst hr /\ glob_ok (fst hr) = true /\ snd hr <> []
+    /\ NoDup (map r_path (snd hr)) /\ Forall (route_good (fst hr)) (snd hr).
   Definition table_good (t : table) : Prop := NoDup (map fst t) /\ Forall host_good t.
 
   Lemma run_from_app a b : forall t,
@@ -78,12 +79,12 @@ Section Rebuild.
 
   Lemma add_first acc h pre p tg :
     ~ In h (map fst acc) -> ~ In p (map r_path pre) ->
-    hostpath (h ++ p) = (h, p) -> lower h = h -> h ++ p <> [] -> glob_ok p = true -> tg_good tg ->
+    hostpath (h ++ p) = (h, p) -> lower h = h -> glob_ok h = true -> h ++ p <> [] -> glob_ok p = true -> tg_good tg ->
     add_route canon glob_ok (st acc h pre) (def_of h p tg)
     = Ok (acc ++ [(h, pre ++ [ {| r_path := p; r_targets := [tg] |} ])]).
   Proof.
-    intros Hh Hp Hhp Hl Hne Hg (Hu & Hc & Hw). unfold add_route. cbn [def_of d_src d_dst d_svc d_w d_tags d_opts].
-    rewrite Hhp. rewrite (match_nonnil _ _ _ Hne), (match_nonnil _ _ _ Hu). rewrite Hc, Hl, Hg.
+    intros Hh Hp Hhp Hl Hgh Hne Hg (Hu & Hc & Hw). unfold add_route. cbn [def_of d_src d_dst d_svc d_w d_tags d_opts].
+    rewrite Hhp. rewrite (match_nonnil _ _ _ Hne), (match_nonnil _ _ _ Hu). rewrite Hc, Hl, Hg, Hgh.
     unfold add_target. cbn [r_targets r_path existsb app]. rewrite (w_clamp_nonneg _ Hw).
     assert (Etg : {| t_svc := t_svc tg; t_url := t_url tg; t_fw := t_fw tg; t_tags := t_tags tg; t_opts := t_opts tg |} = tg)
       by (destruct tg; reflexivity).
@@ -113,10 +114,10 @@ Section Rebuild.
   Qed.
 
   Lemma add_route_all acc h pre r :
-    ~ In h (map fst acc) -> ~ In (r_path r) (map r_path pre) -> lower h = h -> route_good h r ->
+    ~ In h (map fst acc) -> ~ In (r_path r) (map r_path pre) -> lower h = h -> glob_ok h = true -> route_good h r ->
     run_from canon glob_ok (st acc h pre) (route_defs h r) = Ok (st acc h (pre ++ [r])).
   Proof.
-    intros Hh Hp Hl (Hne & Hhp & Hsrc & Hgl & Hg & Htw). destruct r as [p ts]. cbn [r_path r_targets] in *.
+    intros Hh Hp Hl Hgh (Hne & Hhp & Hsrc & Hgl & Hg & Htw). destruct r as [p ts]. cbn [r_path r_targets] in *.
     unfold route_defs. cbn [r_path r_targets]. destruct ts as [|tg ts]; [congruence|].
     inversion Hg as [|? ? Hg1 Hg2]; subst. cbn [map run_from]. unfold apply_def at 1. cbn [def_of d_cmd].
     fold (def_of h p tg). rewrite add_first; auto. cbn [bind].
@@ -126,11 +127,11 @@ Section Rebuild.
     - intros a tg' b E. apply (Htw (tg :: a) tg' b). now rewrite E.
   Qed.
 
-  Lemma add_host_all acc h : ~ In h (map fst acc) -> lower h = h ->
+  Lemma add_host_all acc h : ~ In h (map fst acc) -> lower h = h -> glob_ok h = true ->
     forall rs pre, NoDup (map r_path (pre ++ rs)) -> Forall (route_good h) rs ->
       run_from canon glob_ok (st acc h pre) (flat_map (route_defs h) rs) = Ok (st acc h (pre ++ rs)).
   Proof.
-    intros Hh Hl. induction rs as [|r rs IH]; intros pre Hnd Hg; cbn [flat_map].
+    intros Hh Hl Hgh. induction rs as [|r rs IH]; intros pre Hnd Hg; cbn [flat_map].
     - now rewrite app_nil_r.
     - inversion Hg as [|? ? Hg1 Hg2]; subst. rewrite run_from_app.
       rewrite add_route_all; auto.
@@ -147,7 +148,7 @@ Section Rebuild.
   Proof.
     induction es as [|[h rs] es IH]; intros acc Hnd Hg; cbn [table_defs flat_map].
     - now rewrite app_nil_r.
-    - inversion Hg as [|? ? (Hl & Hne & Hp & Hr) Hg2]; subst. cbn [fst snd] in *.
+    - inversion Hg as [|? ? (Hl & Hgh & Hne & Hp & Hr) Hg2]; subst. cbn [fst snd] in *.
       rewrite run_from_app. unfold host_defs at 1. cbn [fst snd].
       assert (Hh : ~ In h (map fst acc)).
       { rewrite map_app in Hnd. cbn [map fst] in Hnd. apply NoDup_remove_2 in Hnd.
@@ -987,7 +988,7 @@ Proof.
   split.
   - split; [constructor; [intros [] | constructor]|].
     constructor; [|constructor]. unfold host_good, ex_table. cbn [fst snd].
-    split; [ev|]. split; [discriminate|]. split; [constructor; [intros [] | constructor]|].
+    split; [ev|]. split; [reflexivity|]. split; [discriminate|]. split; [constructor; [intros [] | constructor]|].
     constructor; [|constructor]. unfold route_good. cbn [r_targets r_path].
     split; [discriminate|]. split; [ev|]. split; [vm_compute; discriminate|]. split; [reflexivity|]. split.
     + constructor; [|constructor; [|constructor]]; (split; [vm_compute; discriminate|]; split; ev).
